@@ -90,6 +90,26 @@ CHECKS = {
                       'actually handled and all configurations agreed with the reference'),
                 assumptions=['reference interpreter semantics of ON ERROR (DESIGN.md appendix A); errors in block headers under a handler are inconclusive',
                              'for an error inside a procedure the property only promises transfer to the handler; resumption inside the procedure follows the machine\'s design and is compared as such']),
+    'C13': dict(mod='c13', level='exploration',
+                rule=('scenario = reference-subset program (-g, -O0..-O2) x stop point (statement, j-th arrival, reached by line '
+                      'breakpoint + continue or by stepping; in main and in procedure frames; and after the program finished) x 1-5 '
+                      'print expressions over names in scope (scalars, array elements, record fields, constants; arithmetic, '
+                      'comparison, logical, string operators) plus malformed / unknown-name prints. Expected values come from a '
+                      'twin program with PRINT <exprs> inserted before the stopped statement, run freely on the real machine (typed '
+                      'operands of the j-th execution). evaluations = compilations + debugger sessions + prints; '
+                      'distinct_nontrivial = distinct (text, opt, stop, arrival, expression) digests whose values agreed'),
+                assumptions=['virtual clock frozen (deltas 0) so that the inserted PRINT cannot change TIMER-dependent control flow',
+                             'a location the program never assigned may be reported as having no value yet (the property speaks of already-assigned locations)',
+                             'builtin and user function calls are not part of the generated print expressions']),
+    'C11': dict(mod='c11', level='exploration',
+                rule=('run-time half only. scenario = reference-subset program (-g, two of -O0..-O2) x device script x plan '
+                      '(fault-free, then sampled device failures); the reference interpreter tells which statement issues each '
+                      'device event / fails / executes; the debug map must name a record on that statement\'s line (and with its '
+                      'text) for the io instruction of every device call and for every trapping instruction, and the executed '
+                      'simple statements must appear in order among the statement starts control passes. evaluations = '
+                      'compilations + simulated runs; distinct_nontrivial = distinct (text, config, plan) digests checked'),
+                assumptions=['instructions never involved in an observed event are not attributed (static half not claimed)',
+                             'line numbers of statements come from simqb\'s own printer; the reference interpreter decides which statement acts']),
 }
 
 
